@@ -130,6 +130,11 @@ thread_local! {
 }
 
 /// install the silent panic hook (records message + location per thread)
+/// message and location of the last panic on this thread (set by the hook)
+pub fn take_last_panic() -> Option<String> {
+    LAST_PANIC.with(|p| p.borrow_mut().take())
+}
+
 pub fn install_panic_hook() {
     std::panic::set_hook(Box::new(|info| {
         let msg = if let Some(s) = info.payload().downcast_ref::<&str>() {
